@@ -10,6 +10,10 @@
     dispatch table and the keep set regenerated from `parse()`.
 -/
 import CxxModel.Theorems.NsForm
+import CxxModel.Theorems.UsingDecl
+import CxxModel.Theorems.AccessForm
+import CxxModel.Theorems.BlockEnd
+import CxxModel.Theorems.Verbose
 import CxxModel.Theorems.DoxNeutral
 import CxxModel.Theorems.EnumList
 import CxxModel.Tables
@@ -66,7 +70,7 @@ theorem toplevel_namespace (env : Env) (hp : RulesProgress env.cfg = true) (F : 
     ∃ (d : Option String) (bD : Buf) (w' : World) (ct : CTok),
       getDoxygen env.cfg env.mcRe w.buf = .ok (d, bD) ∧ w'.buf = b' ∧
       w'.stack = w.stack ∧ w'.events = w.events ∧ w'.delivered = w.delivered ∧ w'.anon = w.anon ∧ w'.muted = w.muted ∧
-      w'.mainTok = some ct ∧ ct.value = kw.value ∧
+      w'.nextId = w.nextId ∧ w'.mainTok = some ct ∧ ct.value = kw.value ∧
       interp env (mainBody F c none) w =
         match interp env (nsFinish (.tok ct.sidx) d false (first.value :: pairs.map (·.2.value)) none) w' with
         | (w3, .ok ()) => (w3, .ok (.inl none))
@@ -77,12 +81,13 @@ theorem toplevel_namespace (env : Env) (hp : RulesProgress env.cfg = true) (F : 
     obtain ⟨d, bD, wA, ct, hd, hsA, hbA, hty, hv, hi⟩ := mainBody_item env hp F c w kw b1 htok
     obtain ⟨w', hb, hs, hns⟩ := namespace_form env F ct d false first pairs ob { wA with mainTok := some ct } b' hf hall hob
       (by show Yields env.cfg wA.buf _ _; rw [hbA]; exact hrest) hF
-    refine ⟨d, bD, w', ct, hd, hb, ?_, ?_, ?_, ?_, ?_, ?_, hv, ?_⟩
+    refine ⟨d, bD, w', ct, hd, hb, ?_, ?_, ?_, ?_, ?_, ?_, ?_, hv, ?_⟩
     · rw [hs.stack]; exact hsA.stack
     · rw [hs.events]; exact hsA.events
     · rw [hs.delivered]; exact hsA.delivered
     · rw [hs.anon]; exact hsA.anon
     · rw [hs.muted]; exact hsA.muted
+    · rw [hs.nextId]; exact hsA.nextId
     · rw [hs.mainTok]
     · rw [hi]
       have hti : topItem F c ct d = parseNamespace F ct d false := by
@@ -94,5 +99,236 @@ theorem toplevel_namespace (env : Env) (hp : RulesProgress env.cfg = true) (F : 
         rw [hty, hkw, keep_not_namespace]
         rfl
       rw [hti, hns, hcar]
+
+/-- generic shape of an iteration whose first token's type is dispatched to `handler`, for a type
+    outside the keep set: the handler runs with the doc text found and NO doc text is handed on -/
+theorem toplevel_dispatch (env : Env) (hp : RulesProgress env.cfg = true) (F : Nat) (c : Core) (w : World) (t : Tok) (b1 : Buf)
+    (handler : String) (ht : tokenEofOk env.cfg w.buf = .ok (some t, b1))
+    (hd : Gen.dispatchTable.lookup t.type = some handler) (hk : Gen.keepDoxygen.contains t.type = false) :
+    ∃ (d : Option String) (bD : Buf) (wA : World) (ct : CTok),
+      getDoxygen env.cfg env.mcRe w.buf = .ok (d, bD) ∧ SameParse w wA ∧ wA.buf = b1 ∧
+      ct.type = t.type ∧ ct.value = t.value ∧
+      interp env (mainBody F c none) w =
+        match interp env (dispatch F c handler ct d) { wA with mainTok := some ct } with
+        | (w3, .ok ()) => (w3, .ok (.inl none))
+        | (w3, .error e) => (w3, .error e) := by
+  obtain ⟨d, bD, wA, ct, hdx, hs, hb, hty, hv, hi⟩ := mainBody_item env hp F c w t b1 ht
+  refine ⟨d, bD, wA, ct, hdx, hs, hb, hty, hv, ?_⟩
+  have hti : topItem F c ct d = dispatch F c handler ct d := by
+    unfold topItem
+    rw [hty, hd]
+  have hcar : carry ct d = none := by
+    unfold carry
+    rw [hty, hk]
+    rfl
+  rw [hi, hti, hcar]
+
+/-- `;` alone (an empty declaration): nothing happens -/
+theorem toplevel_semicolon (env : Env) (hp : RulesProgress env.cfg = true) (F : Nat) (c : Core) (w : World) (t : Tok) (b1 : Buf)
+    (ht : tokenEofOk env.cfg w.buf = .ok (some t, b1)) (hty : t.type = ";") :
+    ∃ (wA : World) (ct : CTok), SameParse w wA ∧ wA.buf = b1 ∧ ct.value = t.value ∧
+      interp env (mainBody F c none) w = ({ wA with mainTok := some ct }, .ok (.inl none)) := by
+  obtain ⟨d, bD, wA, ct, _, hs, hb, _, hv, hi⟩ := toplevel_dispatch env hp F c w t b1 "<lambda:Constant(None)>" ht
+    (by rw [hty, dispatch_table_eq]; decide) (by rw [hty, keep_doxygen_eq]; decide)
+  refine ⟨wA, ct, hs, hb, hv, ?_⟩
+  rw [hi]
+  simp [dispatch, pure, interp]
+
+/-- `}` closing a namespace or extern block -/
+theorem toplevel_block_end (env : Env) (hp : RulesProgress env.cfg = true) (F : Nat) (c : Core) (w : World) (t : Tok) (b1 : Buf)
+    (blk : Block) (rest : List Block) (hstack : w.stack = blk :: rest) (hg : blk.isGlobal = false) (hk : blk.hdr.kind ≠ .cls)
+    (ht : tokenEofOk env.cfg w.buf = .ok (some t, b1)) (hty : t.type = "}") :
+    ∃ (wA : World) (ct : CTok), SameParse w wA ∧ wA.buf = b1 ∧ ct.value = t.value ∧
+      interp env (mainBody F c none) w =
+        match deliver env { wA with mainTok := some ct }
+            (mkEvent { wA with mainTok := some ct } .blockEnd blk (rest.head?.map (·.id))) with
+        | (w1, some e) => (w1, .error e)
+        | (w1, none) => ({ w1 with muted := blk.priorMuted, stack := rest }, .ok (.inl none)) := by
+  obtain ⟨d, bD, wA, ct, _, hs, hb, _, hv, hi⟩ := toplevel_dispatch env hp F c w t b1 "_on_block_end" ht
+    (by rw [hty, dispatch_table_eq]; decide) (by rw [hty, keep_doxygen_eq]; decide)
+  refine ⟨wA, ct, hs, hb, hv, ?_⟩
+  rw [hi]
+  have hst : ({ wA with mainTok := some ct } : World).stack = blk :: rest := by
+    show wA.stack = _
+    rw [hs.stack]; exact hstack
+  have := block_end_nonclass env F c { wA with mainTok := some ct } blk rest hst hg hk
+  simp only [dispatch, this]
+  cases deliver env { wA with mainTok := some ct } (mkEvent { wA with mainTok := some ct } .blockEnd blk (rest.head?.map (·.id))) with
+  | mk w1 o => cases o <;> rfl
+
+/-- `extern "L" {` outside a class -/
+theorem toplevel_extern_block (env : Env) (hp : RulesProgress env.cfg = true) (F : Nat) (c : Core) (w : World)
+    (kw str ob : Tok) (b' : Buf) (blk : Block) (rest : List Block) (hstack : w.stack = blk :: rest) (hk : blk.view.kind ≠ .cls)
+    (hkw : kw.type = "extern") (hs : str.type = "STRING_LITERAL") (hob : ob.type = "{")
+    (hy : Yields env.cfg w.buf [kw, str, ob] b') :
+    ∃ (w' : World) (ct e : CTok), w'.buf = b' ∧ w'.stack = w.stack ∧ w'.events = w.events ∧ w'.anon = w.anon ∧
+      w'.muted = w.muted ∧ ct.value = kw.value ∧ e.value = str.value ∧
+      interp env (mainBody F c none) w =
+        match interp env (Prog.push { kind := .ext, loc := .tok ct.sidx, linkage := e.value } (Prog.pure ())) w' with
+        | (w3, .ok ()) => (w3, .ok (.inl none))
+        | (w3, .error e) => (w3, .error e) := by
+  cases hy with
+  | cons htok hrest =>
+    rename_i b1
+    obtain ⟨d, bD, wA, ct, _, hsA, hbA, _, hv, hi⟩ := toplevel_dispatch env hp F c w kw b1 "_parse_extern" htok
+      (by rw [hkw, dispatch_table_eq]; decide) (by rw [hkw, keep_doxygen_eq]; decide)
+    obtain ⟨w', e, hb, hs', hev, hx⟩ := extern_block_form env F c ct d str ob { wA with mainTok := some ct } b' blk rest
+      (by show wA.stack = _; rw [hsA.stack]; exact hstack) hk hs hob (by show Yields env.cfg wA.buf _ _; rw [hbA]; exact hrest)
+    refine ⟨w', ct, e, hb, ?_, ?_, ?_, ?_, hv, hev, ?_⟩
+    · rw [hs'.stack]; exact hsA.stack
+    · rw [hs'.events]; exact hsA.events
+    · rw [hs'.anon]; exact hsA.anon
+    · rw [hs'.muted]; exact hsA.muted
+    · rw [hi]
+      simp only [dispatch, hx]
+
+/-- `public:` / `protected:` / `private:` in a class body -/
+theorem toplevel_access_specifier (env : Env) (hp : RulesProgress env.cfg = true) (F : Nat) (c : Core) (w : World)
+    (kw colon : Tok) (b' : Buf) (blk : Block) (rest : List Block) (hstack : w.stack = blk :: rest) (hk : blk.view.kind = .cls)
+    (hkw : kw.type = "public" ∨ kw.type = "protected" ∨ kw.type = "private") (hc : colon.type = ":")
+    (hy : Yields env.cfg w.buf [kw, colon] b') :
+    ∃ (w' : World), interp env (mainBody F c none) w = (w', .ok (.inl none)) ∧ w'.buf = b' ∧
+      w'.stack = { blk with access := some kw.value } :: rest ∧
+      w'.events = w.events ∧ w'.delivered = w.delivered ∧ w'.anon = w.anon ∧ w'.muted = w.muted := by
+  cases hy with
+  | cons htok hrest =>
+    rename_i b1
+    cases hrest with
+    | cons htok2 hrest2 =>
+      rename_i b2
+      have hbb : b2 = b' := by cases hrest2; rfl
+      subst hbb
+      obtain ⟨d, bD, wA, ct, _, hsA, hbA, _, hv, hi⟩ := toplevel_dispatch env hp F c w kw b1 "_process_access_specifier" htok
+        (by rcases hkw with h | h | h <;> (rw [h, dispatch_table_eq]; decide))
+        (by rcases hkw with h | h | h <;> (rw [h, keep_doxygen_eq]; decide))
+      obtain ⟨w', hi2, hb, hst, hev, hdl, han, hmu⟩ := access_specifier_form env ct colon { wA with mainTok := some ct } b2 blk rest
+        (by show wA.stack = _; rw [hsA.stack]; exact hstack) hk hc (by show tokenEofOk env.cfg wA.buf = _; rw [hbA]; exact htok2)
+      refine ⟨w', ?_, hb, by rw [hst, hv], ?_, ?_, ?_, ?_⟩
+      · rw [hi]
+        simp only [dispatch, hi2]
+      · rw [hev]; exact hsA.events
+      · rw [hdl]; exact hsA.delivered
+      · rw [han]; exact hsA.anon
+      · rw [hmu]; exact hsA.muted
+
+/-- **`using namespace n1 :: … :: nk ;`, the whole declaration through `parse()`'s loop**: with an
+    active visitor that does not raise here, the iteration delivers exactly ONE callback —
+    `on_using_namespace [n1, …, nk]` for the innermost open block — consumes exactly the
+    declaration, records the `using` token's location on that block and changes nothing else. -/
+theorem toplevel_using_namespace (env : Env) (hp : RulesProgress env.cfg = true) (F : Nat) (c : Core) (w : World)
+    (kwU kwN first : Tok) (pairs : List (Tok × Tok)) (semi : Tok) (b' : Buf)
+    (blk : Block) (rest : List Block) (hstack : w.stack = blk :: rest) (hk : blk.view.kind ≠ .cls)
+    (hmu : w.muted = false) (hfa : ¬ env.faultAt = some w.delivered)
+    (hU : kwU.type = "using") (hN : kwN.type = "namespace") (hf : first.type = "NAME")
+    (hall : ∀ p ∈ pairs, p.1.type = "DBL_COLON" ∧ p.2.type = "NAME") (hsemi : semi.type = ";")
+    (hy : Yields env.cfg w.buf (kwU :: ((kwN :: first :: pairs.flatMap (fun p => [p.1, p.2])) ++ [semi])) b')
+    (hF : pairs.length + 1 ≤ F) :
+    ∃ (w2 : World) (ct : CTok) (ev : Event), interp env (mainBody F c none) w = (w2, .ok (.inl none)) ∧ w2.buf = b' ∧
+      ct.value = kwU.value ∧
+      w2.stack = { blk with loc := .tok ct.sidx } :: rest ∧ w2.events = w.events ++ [ev] ∧
+      ev.kind = .item (.usingNamespace (first.value :: pairs.map (·.2.value))) ∧ ev.stateId = blk.id ∧
+      ev.parentId = rest.head?.map (·.id) ∧
+      w2.delivered = w.delivered + 1 ∧ w2.anon = w.anon ∧ w2.muted = false := by
+  cases hy with
+  | cons htok hrest =>
+    rename_i b1
+    obtain ⟨bmid, hy1, hy2⟩ := Yields.split hrest
+    cases hy2 with
+    | cons htokS hnil =>
+      rename_i bS
+      have hbS : bS = b' := by cases hnil; rfl
+      subst hbS
+      obtain ⟨d, bD, wA, ct, _, hsA, hbA, _, hv, hi⟩ := toplevel_dispatch env hp F c w kwU b1 "_parse_using" htok
+        (by rw [hU, dispatch_table_eq]; decide) (by rw [hU, keep_doxygen_eq]; decide)
+      obtain ⟨w', t', hb, htv, hs', hx⟩ := using_namespace_decl env F c ct d kwN first pairs semi { wA with mainTok := some ct } bmid bS
+        blk rest (by show wA.stack = _; rw [hsA.stack]; exact hstack) hk hN hf hall
+        (by show Yields env.cfg wA.buf _ _; rw [hbA]; exact hy1) htokS (by rw [hsemi]; decide) hF
+      -- the callback
+      have hst' : w'.stack = { blk with loc := .tok ct.sidx } :: rest := hs'.stack
+      have hmu' : w'.muted = false := by rw [hs'.muted]; show wA.muted = _; rw [hsA.muted]; exact hmu
+      have hdl' : w'.delivered = w.delivered := by rw [hs'.delivered]; show wA.delivered = _; exact hsA.delivered
+      have hev' : w'.events = w.events := by rw [hs'.events]; show wA.events = _; exact hsA.events
+      have han' : w'.anon = w.anon := by rw [hs'.anon]; show wA.anon = _; exact hsA.anon
+      have hdel := deliver_passing env w' (mkEvent w' (.item (.usingNamespace (first.value :: pairs.map (·.2.value))))
+        { blk with loc := .tok ct.sidx } (rest.head?.map (·.id))) hmu' (by rw [hdl']; exact hfa)
+      -- the `;`
+      have hnd : isDiscard t'.type = false := by
+        have h1 := tokenEofOk_not_discard htokS
+        have h2 : t'.type = semi.type := congrArg Prod.fst htv
+        rw [h2]; exact h1
+      have htokT : tokenEofOk env.cfg
+          ({ w' with events := w'.events ++ [mkEvent w' (.item (.usingNamespace (first.value :: pairs.map (·.2.value))))
+              { blk with loc := .tok ct.sidx } (rest.head?.map (·.id))], delivered := w'.delivered + 1 } : World).buf =
+          .ok (some t', bS) := by
+        show tokenEofOk env.cfg w'.buf = _
+        rw [hb]; exact tokenEofOk_returnToken env.cfg t' bS hnd
+      obtain ⟨w2, c2, hi2, hb2, hs2, _, _⟩ := step_mustBe env [";"] _ t' bS htokT
+        (by have h2 : t'.type = semi.type := congrArg Prod.fst htv; rw [h2, hsemi]; decide)
+      refine ⟨w2, ct, _, ?_, hb2, hv, by rw [hs2.stack]; exact hst', by rw [hs2.events, hev'], rfl, rfl, rfl,
+        by rw [hs2.delivered, hdl'], by rw [hs2.anon]; exact han', by rw [hs2.muted]; exact hmu'⟩
+      rw [hi]
+      have hi2' := hi2
+      simp only [hst'] at hi2'
+      simp only [dispatch, hx, bind, interp_bind, P.emit, interp, hst', hdel, hi2', pure]
+
+/-- **`namespace n1 :: … :: nk {` through `parse()`'s loop, to the callback**: outside a class,
+    with an active visitor that does not raise here, the iteration delivers exactly ONE
+    callback — the start of a new namespace block carrying exactly the written names and the
+    doc text `get_doxygen` found, child of the innermost open block — pushes exactly that block,
+    and mutes the visitor iff the callback asked to skip it (`pushedWorld`). -/
+theorem toplevel_namespace_opens (env : Env) (hp : RulesProgress env.cfg = true) (F : Nat) (c : Core) (w : World)
+    (kw first : Tok) (pairs : List (Tok × Tok)) (ob : Tok) (b' : Buf)
+    (blk : Block) (rest : List Block) (hstack : w.stack = blk :: rest) (hk : blk.view.kind ≠ .cls)
+    (hmu : w.muted = false) (hfa : ¬ env.faultAt = some w.delivered)
+    (hkw : kw.type = "namespace") (hf : first.type = "NAME")
+    (hall : ∀ p ∈ pairs, p.1.type = "DBL_COLON" ∧ p.2.type = "NAME") (hob : ob.type = "{")
+    (hy : Yields env.cfg w.buf (kw :: first :: (pairs.flatMap (fun p => [p.1, p.2]) ++ [ob])) b')
+    (hF : pairs.length + 1 ≤ F) :
+    ∃ (d : Option String) (bD : Buf) (w' : World) (ct : CTok),
+      getDoxygen env.cfg env.mcRe w.buf = .ok (d, bD) ∧ w'.buf = b' ∧
+      w'.stack = w.stack ∧ w'.events = w.events ∧ w'.delivered = w.delivered ∧ w'.anon = w.anon ∧ w'.muted = w.muted ∧
+      w'.nextId = w.nextId ∧ ct.value = kw.value ∧
+      interp env (mainBody F c none) w =
+        (pushedWorld env { kind := .ns, loc := .tok ct.sidx, ns := { names := first.value :: pairs.map (·.2.value), inline := false, doxygen := d } } w',
+          .ok (.inl none)) := by
+  obtain ⟨d, bD, w', ct, hd, hb, hst, hev, hdl, han, hmu', hnx, _, hv, hi⟩ :=
+    toplevel_namespace env hp F c w kw first pairs ob b' hkw hf hall hob hy hF
+  have htop := interp_getTop env w' blk rest (by rw [hst]; exact hstack)
+  have hk' : ¬ blk.view.kind = .cls := hk
+  have hpush := interp_push_passing env { kind := .ns, loc := .tok ct.sidx, ns := { names := first.value :: pairs.map (·.2.value), inline := false, doxygen := d } } w'
+    (by rw [hmu']; exact hmu) (by rw [hdl]; exact hfa)
+  refine ⟨d, bD, w', ct, hd, hb, hst, hev, hdl, han, hmu', hnx, hv, ?_⟩
+  rw [hi]
+  unfold nsFinish
+  simp only [Bool.false_and, Bool.false_eq_true, ↓reduceIte, bind, interp_bind, htop, hk', hpush]
+
+/-- **`extern "L" {` through `parse()`'s loop, to the callback** -/
+theorem toplevel_extern_opens (env : Env) (hp : RulesProgress env.cfg = true) (F : Nat) (c : Core) (w : World)
+    (kw str ob : Tok) (b' : Buf) (blk : Block) (rest : List Block) (hstack : w.stack = blk :: rest) (hk : blk.view.kind ≠ .cls)
+    (hmu : w.muted = false) (hfa : ¬ env.faultAt = some w.delivered)
+    (hkw : kw.type = "extern") (hs : str.type = "STRING_LITERAL") (hob : ob.type = "{")
+    (hy : Yields env.cfg w.buf [kw, str, ob] b') :
+    ∃ (w' : World) (ct e : CTok), w'.buf = b' ∧ w'.stack = w.stack ∧ w'.events = w.events ∧ w'.anon = w.anon ∧
+      w'.muted = w.muted ∧ w'.delivered = w.delivered ∧ w'.nextId = w.nextId ∧ ct.value = kw.value ∧ e.value = str.value ∧
+      interp env (mainBody F c none) w =
+        (pushedWorld env { kind := .ext, loc := .tok ct.sidx, linkage := e.value } w', .ok (.inl none)) := by
+  cases hy with
+  | cons htok hrest =>
+    rename_i b1
+    obtain ⟨d, bD, wA, ct, _, hsA, hbA, _, hv, hi⟩ := toplevel_dispatch env hp F c w kw b1 "_parse_extern" htok
+      (by rw [hkw, dispatch_table_eq]; decide) (by rw [hkw, keep_doxygen_eq]; decide)
+    obtain ⟨w', e, hb, hs', hev, hx⟩ := extern_block_form env F c ct d str ob { wA with mainTok := some ct } b' blk rest
+      (by show wA.stack = _; rw [hsA.stack]; exact hstack) hk hs hob (by show Yields env.cfg wA.buf _ _; rw [hbA]; exact hrest)
+    have hmu' : w'.muted = w.muted := by rw [hs'.muted]; exact hsA.muted
+    have hdl' : w'.delivered = w.delivered := by rw [hs'.delivered]; exact hsA.delivered
+    have hpush := interp_push_passing env { kind := .ext, loc := .tok ct.sidx, linkage := e.value } w'
+      (by rw [hmu']; exact hmu) (by rw [hdl']; exact hfa)
+    refine ⟨w', ct, e, hb, ?_, ?_, ?_, hmu', hdl', ?_, hv, hev, ?_⟩
+    · rw [hs'.stack]; exact hsA.stack
+    · rw [hs'.events]; exact hsA.events
+    · rw [hs'.anon]; exact hsA.anon
+    · rw [hs'.nextId]; exact hsA.nextId
+    · rw [hi]
+      simp only [dispatch, hx, hpush]
 
 end Cxx
